@@ -105,6 +105,27 @@ def readOptString (present : Bool) (s : Bytes) : Except Err (Nat × Bytes) :=
 
 def flagSet (flg : UInt8) (bit : UInt8) : Bool := flg &&& bit != 0
 
+/-- FEXTRA: `(bytes consumed, Extra)` from the input after the ten fixed bytes -/
+def readExtra (flg : UInt8) (r0 : Bytes) : Except Err (Nat × Option Bytes) :=
+  if flagSet flg 4 then
+    match r0 with
+    | x0 :: x1 :: r1 =>
+      if r1.length < x0.toNat + 256 * x1.toNat then .error .unexpectedEOF
+      else .ok (2 + (x0.toNat + 256 * x1.toNat), some (r1.take (x0.toNat + 256 * x1.toNat)))
+    | _ => .error .unexpectedEOF
+  else .ok (0, none)
+
+/-- FHCRC: the two bytes at offset `n` of the member must equal the low 16 bits of the CRC-32 of the
+`n` header bytes before them -/
+def readHdrCrc (crc32 : Bytes → Nat) (flg : UInt8) (s : Bytes) (n : Nat) : Except Err Nat :=
+  if flagSet flg 2 then
+    match s.drop n with
+    | d0 :: d1 :: _ =>
+      if d0.toNat + 256 * d1.toNat ≠ crc32 (s.take n) % 65536 then .error .gzHeader
+      else .ok (n + 2)
+    | _ => .error .unexpectedEOF
+  else .ok n
+
 /-- `Reader.readHeader` on the remaining input `s`: header and number of bytes consumed.
 `io.ReadFull` of the first ten bytes: nothing → io.EOF, some → io.ErrUnexpectedEOF; every later short
 read is `noEOF(err)` = io.ErrUnexpectedEOF. -/
@@ -114,17 +135,7 @@ def readHeader (crc32 : Bytes → Nat) (s : Bytes) : Except Err (GzHeader × Nat
   | id1 :: id2 :: cm :: flg :: m0 :: m1 :: m2 :: m3 :: xfl :: os :: r0 =>
     if id1 ≠ 0x1f ∨ id2 ≠ 0x8b ∨ cm ≠ 8 then .error .gzHeader
     else
-      -- FEXTRA
-      let ex : Except Err (Nat × Option Bytes) :=
-        if flagSet flg 4 then
-          match r0 with
-          | x0 :: x1 :: r1 =>
-            let xlen := x0.toNat + 256 * x1.toNat
-            if r1.length < xlen then .error .unexpectedEOF
-            else .ok (2 + xlen, some (r1.take xlen))
-          | _ => .error .unexpectedEOF
-        else .ok (0, none)
-      match ex with
+      match readExtra flg r0 with
       | .error e => .error e
       | .ok (nx, extra) =>
         match readOptString (flagSet flg 8) (r0.drop nx) with
@@ -133,15 +144,9 @@ def readHeader (crc32 : Bytes → Nat) (s : Bytes) : Except Err (GzHeader × Nat
           match readOptString (flagSet flg 16) (r0.drop (nx + nn)) with
           | .error e => .error e
           | .ok (nc, comment) =>
-            let n := 10 + nx + nn + nc
-            let hdr : GzHeader := ⟨flg, leNat [m0, m1, m2, m3], xfl, os, extra, name, comment⟩
-            if flagSet flg 2 then
-              match s.drop n with
-              | d0 :: d1 :: _ =>
-                if d0.toNat + 256 * d1.toNat ≠ crc32 (s.take n) % 65536 then .error .gzHeader
-                else .ok (hdr, n + 2)
-              | _ => .error .unexpectedEOF
-            else .ok (hdr, n)
+            match readHdrCrc crc32 flg s (10 + nx + nn + nc) with
+            | .error e => .error e
+            | .ok n => .ok (⟨flg, leNat [m0, m1, m2, m3], xfl, os, extra, name, comment⟩, n)
   | _ => .error .unexpectedEOF
 
 /-! ### bgzf framing -/
@@ -189,11 +194,10 @@ def readMember (q : Quirks) (c : Codec) (s : Bytes) : Except Err Framed :=
       if blockSize = skipped then .error (if q.eofOnZeroNeed then .eof else .corrupt)
       else if blockSize < skipped then .error .corrupt
       else
-        let need := blockSize - skipped
-        let avail := s.drop skipped
-        -- io.ReadFull(src, r.data[:need])
-        if avail.length ≥ need then .ok ⟨h, avail.take need, avail.drop need⟩
-        else if avail = [] then .error (if q.eofOnEmptyBody then .eof else .unexpectedEOF)
+        -- need := blockSize - skipped; io.ReadFull(src, r.data[:need]) on what follows the header
+        if (s.drop skipped).length ≥ blockSize - skipped then
+          .ok ⟨h, (s.drop skipped).take (blockSize - skipped), (s.drop skipped).drop (blockSize - skipped)⟩
+        else if s.drop skipped = [] then .error (if q.eofOnEmptyBody then .eof else .unexpectedEOF)
         else .error .unexpectedEOF
 
 /-! ### gzip member body: inflate, trailer check, multistream continuation inside the buffer -/
@@ -206,7 +210,7 @@ def gzBody (c : Codec) (buf : Bytes) : Except Err Bytes :=
   match c.inflate buf with
   | .fail code => .error (.inflate code)
   | .ok payload used =>
-    if h8 : (buf.drop used).length < 8 then .error .unexpectedEOF
+    if _h8 : (buf.drop used).length < 8 then .error .unexpectedEOF
     else if leNat ((buf.drop used).take 4) ≠ c.crc32 payload
         ∨ leNat (((buf.drop used).drop 4).take 4) ≠ payload.length % 4294967296 then
       .error .gzChecksum
@@ -220,7 +224,7 @@ def gzBody (c : Codec) (buf : Bytes) : Except Err Bytes :=
         | .ok p2 => .ok (payload ++ p2)
 termination_by buf.length
 decreasing_by
-  simp only [List.length_drop] at h8 ⊢
+  simp only [List.length_drop] at _h8 ⊢
   omega
 
 /-- One block: frame the member, run the gzip reader over it, enforce the block capacity. -/
